@@ -151,7 +151,7 @@ Section Static.
         + destruct Hin as [<-|[<-|[]]]; auto. right. right. exists c. auto.
         + destruct Hin as [<-|[]]; auto.
       - (* switch_s *) destruct (switch_target n c En) as (m & Ec & Km). rewrite Ec in Hin.
-        destruct Hin as [<-|[<-|[]]]; auto.
+        destruct Hin as [<-|[]]; auto.
       - (* sloop *) destruct (alookup (loops st) n); [destruct Hin as [<-|[]]; auto | destruct Hin].
       - (* route *) destruct (alookup (defs st) r) as [[]|]; try discriminate; try (destruct Hin; fail).
         destruct Hin as [<-|[]]; auto.
@@ -332,9 +332,9 @@ Definition demand_ok_def (st : state) (inj : list (nat * val)) (d : def) : bool 
 Definition demands_ok (st : state) (inj : list (nat * val)) : bool :=
   forallb (fun kd => demand_ok_def st inj (snd kd)) (defs st).
 
-(* no instantaneous dependency cycle among the static dependencies.  For switch_s this includes: the update
-   of the outer cell does not depend on the switch's own output within the same transaction (see
-   Model/Net.v) *)
+(* no instantaneous dependency cycle among the static dependencies.  A switch_s depends on the stream its
+   outer cell held at the start of the transaction only, not on the outer cell's update (see Model/Net.v):
+   the update of the outer cell may depend on the switch's own output *)
 Definition acyclic (st : state) : Prop :=
   exists rank : nat -> nat, forall n d, In d (ndeps st n) -> rank d < rank n.
 
@@ -547,7 +547,7 @@ Section Refine.
     - (* switch_s: the stream held at the start of the transaction *)
       destruct (switch_target st Hsw n c En) as (m & Ec & Km). rewrite Ec in Dn0 |- *. cbn [ebind].
       once_dep Dn0 n m. rewrite (IHs m Km Rk).
-      rewrite Dq, Dn0. unfold Frule. rewrite En. cbn [map existsb nth]. destruct (dn m), (dn c); reflexivity.
+      rewrite Dq, Dn0. unfold Frule. rewrite En. cbn [map existsb nth]. destruct (dn m); reflexivity.
     - (* sloop *) destruct (alookup (loops st) n) as [t|] eqn:Lp.
       + once_dep Dn0 n t. rewrite (IHs t R Rk).
         rewrite Dq, Dn0. unfold Frule. rewrite En. cbn [map existsb nth]. destruct (dn t); reflexivity.
@@ -1395,8 +1395,8 @@ Definition ex_st : state :=
            (11, 34)]
           0 [] [] [] [].
 Definition ex_inj : list (nat * val) := [(19, VInt 100); (0, VInt 5); (19, VInt 1)].
-(* one rank for all the wirings of the switches: 23 above streams 1 and 2 and above the outer cell 22;
-   33 above the candidate cells 6 and 36 and above the outer cell 32 *)
+(* one rank for all the wirings of the switches: 23 above streams 1 and 2 (it does not depend on its
+   outer cell 22); 33 above the candidate cells 6 and 36 and above the outer cell 32 *)
 Definition ex_rank (n : nat) : nat :=
   nth n [0; 1; 1; 2; 3; 1; 0; 4; 2; 3; 5; 6; 1; 1; 1; 3; 3; 5; 0; 0; 3; 1; 2; 3; 0; 1; 0; 4; 1; 2; 1;
          1; 2; 3; 4; 1; 2] 0.
@@ -1428,7 +1428,7 @@ Example ex_net_txn :
          Some (VList [VInt 5; VInt 6]); None; Some (VInt 16); None; None; Some (VInt 10);
          Some (VRef 36); Some (VRef 36); Some (VInt 201); Some (VInt 201); Some (VInt 201); Some (VInt 201)],
         [64; 67],
-        [1; 2; 3; 4; 7; 10; 11; 17; 27; 15; 16; 20; 21; 22; 23; 5; 8; 9; 12; 13; 14; 25; 31; 32; 35; 36; 33; 34; 30]).
+        [1; 2; 3; 4; 7; 10; 11; 17; 27; 15; 16; 20; 23; 5; 8; 9; 12; 13; 14; 21; 22; 25; 31; 32; 35; 36; 33; 34; 30]).
 Proof. vm_compute. reflexivity. Qed.
 
 (* what the switches demand in this transaction according to the specification, and what the engine's
@@ -1478,7 +1478,7 @@ Example ex_other_order :
   option_map fst (net_run ex_st (rev_dependents (compile ex_st)) (rev (net_sources ex_st ex_inj))) =
   option_map fst (net_txn ex_st ex_inj) /\
   option_map snd (net_run ex_st (rev_dependents (compile ex_st)) (rev (net_sources ex_st ex_inj))) =
-  Some [30; 1; 2; 3; 4; 27; 35; 36; 20; 31; 32; 33; 34; 25; 21; 22; 23; 14; 13; 12; 5; 8; 9; 16; 15; 7; 17; 10; 11].
+  Some [30; 1; 2; 3; 4; 27; 35; 36; 20; 31; 32; 33; 34; 25; 21; 22; 14; 13; 12; 5; 8; 9; 23; 16; 15; 7; 17; 10; 11].
 Proof. vm_compute. split; reflexivity. Qed.
 
 (* ... a history of six transactions.  The first (send 5) makes the outer cell 22 refer to stream 2, the
@@ -1534,7 +1534,7 @@ Example ex_rewired :
     | None => ([], [], [], ([], [], []))
     end
   | None => ([], [], [], ([], [], []))
-  end = ([1; 22], [2; 22], [1; 22], ([32; 6], [32; 36], [32; 6])).
+  end = ([1], [2], [1], ([32; 6], [32; 36], [32; 6])).
 Proof. vm_compute. reflexivity. Qed.
 
 Example ex_history_thm :
@@ -1585,43 +1585,75 @@ Print Assumptions ex_static_ok.
 Print Assumptions ex_refines.
 Print Assumptions ex_history_thm.
 Print Assumptions ex_outer_history_thm.
-(* ------------------------------------------------------------------ the acyclicity hypothesis is needed *)
+(* ------------------------------------------------------------------ a cyclic outer cell is in the fragment *)
 (* A switch_s whose outer cell is fed, within the same transaction, by the switch's own output: outer
    cell 3 = hold (2 = map of the switch 4's output to a stream reference), 4 = switch_s 3, currently on
-   the sink 0.  Every other hypothesis holds; the graph has the cycle 4 -> 3 -> 2 -> 4 (the inner node
-   depends on the outer node, /repo/src/impl_/cell.rs `node1.add_dependency(node2)`).  The specification
-   (whose `occ (DSwitchS c)` does not read `upd c`) lets the switch fire 5, then 2 fire `VRef 1` and the
-   outer cell take it.  The engine reaches node 2 and 3 while 4 is still being visited, finds nothing
-   fired, and never comes back: the switch fires 5 but the outer cell is NOT updated.  This is the
-   implementation's cyclic-outer-cell defect; `acyclic` excludes exactly such states. *)
+   the sink 0.  The switch reads the outer cell as of the start of the transaction: its node depends on
+   the sink 0 only (/repo/src/impl_/cell.rs `switch_s`: the inner node keeps the outer node alive without
+   depending on it), NOT on the outer cell 3, so the graph 0 -> 4 -> 2 -> 3 is acyclic.  Engine and
+   specification (whose `occ (DSwitchS c)` does not read `upd c`) agree: the switch fires 5, then 2 fires
+   `VRef 1` and the outer cell takes it; the next transaction is wired to stream 1.
+   (Before the repair of the implementation the inner node depended on the outer node, the graph had the
+   cycle 4 -> 3 -> 2 -> 4, and the outer cell's update was lost: the former known finding K1.) *)
 Definition cy_defs : list (nat * def) :=
   [ (0, DSink None); (1, DMap 0 (FAdd 1)); (2, DMap 4 (FSel [0; 1])); (3, DHold 2); (4, DSwitchS 3) ].
 Definition cy_st : state := mkState cy_defs [(3, VRef 0)] [] [] [] [] [] [(0, 4)] 0 [] [] [] [].
 
-Example cy_disagree :
+Example cy_static_ok : static_ok cy_st.
+Proof.
+  split; [apply nodupb_spec; reflexivity|].
+  split; [reflexivity|]. split; [reflexivity|]. split; reflexivity.
+Qed.
+
+Example cy_wired_ok : wired_ok cy_st [(0, VInt 5)].
+Proof. apply (wired_okb_ok (fun n => nth n [0; 1; 2; 3; 1] 0)). vm_compute. reflexivity. Qed.
+
+Example cy_acyclic : acyclic_dem cy_st [(0, VInt 5)].
+Proof. exact (proj2 (proj2 cy_wired_ok)). Qed.
+
+(* the engine fires exactly the specification's values, the outer cell's update included; the update log:
+   1 and the switch 4 (dependents of the sink), then 2, then the outer cell 3 *)
+Example cy_agree :
   static_ok cy_st /\ switch_targets_ok cy_st = true /\
-  map (ndeps cy_st) [2; 3; 4] = [[4]; [2]; [0; 3]] /\
+  map (ndeps cy_st) [2; 3; 4] = [[4]; [2]; [0]] /\
   map (fun kd : nat * def => if is_cell (snd kd) then upd cy_st [(0, VInt 5)] (F cy_st) (fst kd)
                              else occ cy_st [(0, VInt 5)] (F cy_st) (fst kd)) cy_defs =
   map (@EV (option val)) [Some (VInt 5); Some (VInt 6); Some (VRef 1); Some (VRef 1); Some (VInt 5)] /\
   option_map (fun r => (firstn 5 (fst r), snd r)) (net_txn cy_st [(0, VInt 5)]) =
-  Some ([Some (VInt 5); Some (VInt 6); None; None; Some (VInt 5)], [1; 4]).
+  Some ([Some (VInt 5); Some (VInt 6); Some (VRef 1); Some (VRef 1); Some (VInt 5)], [1; 4; 2; 3]).
 Proof.
-  split.
-  { split; [apply nodupb_spec; reflexivity|].
-    split; [reflexivity|]. split; [reflexivity|]. split; reflexivity. }
+  split; [exact cy_static_ok|].
   vm_compute. repeat split.
 Qed.
 
-Example cy_not_acyclic : ~ acyclic cy_st.
+(* the theorem applies to it *)
+Example cy_refines :
+  exists fires lg,
+    net_txn cy_st [(0, VInt 5)] = Some (fires, lg) /\
+    length fires = gsize cy_st /\
+    (forall s d, alookup (defs cy_st) s = Some d -> is_cell d = false ->
+                 occ cy_st [(0, VInt 5)] (F cy_st) s = EV (fire_of fires s)) /\
+    (forall c d, alookup (defs cy_st) c = Some d -> is_cell d = true ->
+                 upd cy_st [(0, VInt 5)] (F cy_st) c = EV (fire_of fires c)) /\
+    updates_once_after_deps cy_st fires lg.
 Proof.
-  intros [rank RK].
-  assert (A : rank 3 < rank 4) by (apply RK; vm_compute; auto).
-  assert (B : rank 2 < rank 3) by (apply RK; vm_compute; auto).
-  assert (C : rank 4 < rank 2) by (apply RK; vm_compute; auto).
-  lia.
+  destruct cy_static_ok as (B & C & D & _ & _). destruct cy_wired_ok as (E & G & H).
+  exact (net_txn_refines cy_st [(0, VInt 5)] B C D E G H).
 Qed.
-Print Assumptions cy_disagree.
+
+(* the commit re-wires the switch to stream 1, and the next transaction (send 7) is again in the fragment:
+   the switch fires 7 + 1, from which the outer cell is updated back to a reference to stream 0 *)
+Example cy_next :
+  match net_txn cy_st [(0, VInt 5)] with
+  | Some (f1, _) =>
+    let st1 := net_commit cy_st f1 in
+    (ndeps st1 4, wired_okb (fun n => nth n [0; 1; 3; 4; 2] 0) st1 [(0, VInt 7)],
+     option_map (fun r => firstn 5 (fst r)) (net_txn st1 [(0, VInt 7)]))
+  | None => ([], false, None)
+  end = ([1], true, Some [Some (VInt 7); Some (VInt 8); Some (VRef 0); Some (VRef 0); Some (VInt 8)]).
+Proof. vm_compute. reflexivity. Qed.
+Print Assumptions cy_agree.
+Print Assumptions cy_refines.
 
 (* ------------------------------------------------------------------ ... also through the demands *)
 (* A switch_c that switches, in the transaction of the send, to a cell fed by its own output: outer cell 2 =
